@@ -795,6 +795,57 @@ func ruleKGUARD(w *World, r *Report, pres map[string]*asmPre) {
 		}
 	}
 	r.floor("KGUARD", "production call sites of assembly kernels", n, 4)
+	// coverage: a dispatcher may return without having run a kernel only for an empty buffer
+	for _, name := range []string{"gf2p16.mulByteSliceLE", "gf2p16.mulAndAddByteSliceLE"} {
+		fn := w.Fn(name)
+		if fn == nil {
+			continue
+		}
+		var kernels []ssa.CallInstruction
+		for _, c := range callInstrs(fn) {
+			if callee := c.Common().StaticCallee(); callee != nil && len(callee.Blocks) == 0 && w.inModule(callee) {
+				kernels = append(kernels, c)
+			}
+		}
+		nret := 0
+		for _, b := range fn.Blocks {
+			if len(b.Instrs) == 0 {
+				continue
+			}
+			ret, ok := b.Instrs[len(b.Instrs)-1].(*ssa.Return)
+			if !ok {
+				continue
+			}
+			key := fmt.Sprintf("%s:return#%d:covered", name, nret)
+			nret++
+			covered := false
+			for _, k := range kernels {
+				if instrDominates(k, ret) {
+					covered = true
+				}
+			}
+			if !covered && len(fn.Params) >= 2 {
+				// empty input?
+				rc := &rangeCtx{memo: map[ssa.Value]*ival{}, busy: map[ssa.Value]bool{}}
+				rcx = rc
+				full := rc.full(types.Typ[types.Int])
+				in := fn.Params[1]
+				liv := refineMatch(func(side ssa.Value) bool {
+					lc := isBuiltinCall(side, "len")
+					return lc != nil && lc.Call.Args[0] == ssa.Value(in)
+				}, &ival{lo: bigZero(), hi: full.hi}, cmpsAt(b))
+				if liv.hi.IsInt64() && liv.hi.Int64() <= 1 {
+					covered = true
+				}
+			}
+			if covered {
+				r.ok("KGUARD", key, w.ipos(ret), "return only after a kernel has run, or for an empty buffer")
+			} else {
+				r.bad("KGUARD", key, w.ipos(ret), "the dispatcher can return for a non-empty buffer without having run any kernel on this path: out keeps its old contents")
+			}
+		}
+	}
+	// every part of the buffer is covered: the scalar kernel starts where the SIMD kernel stopped (tail offset), see below
 	// tail offset constant equals the stride
 	for _, name := range []string{"gf2p16.mulByteSliceLE", "gf2p16.mulAndAddByteSliceLE"} {
 		fn := w.Fn(name)
@@ -938,6 +989,16 @@ func lenAtLeast(w *World, a ssa.Value, min int64, blk *ssa.BasicBlock) string {
 	check = func(s ssa.Value, at *ssa.BasicBlock, extra []Cmp) string {
 		cm := append(cmpsAt(at), extra...)
 		if c, ok := constInt(s); ok && c == 0 {
+			rc := &rangeCtx{memo: map[ssa.Value]*ival{}, busy: map[ssa.Value]bool{}}
+			rcx = rc
+			full := rc.full(types.Typ[types.Int])
+			liv := refineMatch(func(side ssa.Value) bool {
+				lc := isBuiltinCall(side, "len")
+				return lc != nil && lc.Call.Args[0] == base
+			}, &ival{lo: bigZero(), hi: full.hi}, cm)
+			if liv.lo.Sign() > 0 {
+				return ""
+			}
 			for _, f := range cm {
 				if f.Y == nil || f.Op.String() != "!=" {
 					continue
